@@ -45,6 +45,37 @@ pub const FORMULAS: &[&str] = &[
     "=local",
 ];
 
+/// Array-valued formulas whose FIRST (anchor) value is of every kind — boolean (FALSE/TRUE), number, text,
+/// empty text, each error, blank/mixed — in several shapes (column, row, 2-D, 1×1), most of them sized by the
+/// input cell A1 so that an edit of A1 resizes them; plus explicit `@`. Used both as dynamic (spilling) arrays
+/// and as fixed-range CSE arrays.
+pub const ARRAY_FORMULAS: &[&str] = &[
+    "=SEQUENCE(A1)>1",
+    "=SEQUENCE(A1)<9",
+    "=SEQUENCE(A1)*2",
+    "=SEQUENCE(A1)&\"x\"",
+    "=IF(SEQUENCE(A1)>0,\"\",1)",
+    "=1/(SEQUENCE(A1)-1)",
+    "=IF(SEQUENCE(A1)>0,NA(),1)",
+    "=SQRT(-SEQUENCE(A1))",
+    "=SEQUENCE(A1)+\"a\"",
+    "=SEQUENCE(1,A1)>1",
+    "=SEQUENCE(1,A1)&\"\"",
+    "=SEQUENCE(A1,2)=1",
+    "=SEQUENCE(2,A1)/2",
+    "=SEQUENCE(1)>0",
+    "=SEQUENCE(1)",
+    "=B1:B3",
+    "=B1:C2=\"\"",
+    "=ISNUMBER(B1:B3)",
+    "=B1:B2&@A1:A2",
+    "=A2:B2&@Sheet1!A1:B1",
+    "=@B1:B3",
+    "=SUM(@B1:B3)",
+    "={TRUE,FALSE;1,\"x\"}",
+    "={\"a\";\"b\"}",
+];
+
 const NUM_FMTS: &[&str] = &["general", "0.00", "#,##0", "0%", "yyyy-mm-dd", "0.00E+00", "$#,##0.00", "@", "[Red]0.0;[Blue]-0.0"];
 const COLORS: &[&str] = &["#FF0000", "#00FF00", "#0000FF", "#123456", "#ABCDEF", "#000000", "#FFFFFF"];
 
@@ -259,15 +290,22 @@ pub fn gen_model(seed: u64, size: u32) -> Model<'static> {
     let max_cells = if size == 0 { 6 } else { 25 };
     for sheet in 0..n_sheets {
         let n = 1 + r.below(max_cells);
+        // every position is written at most once, and A1 (the size input) is reserved: overwriting an array
+        // anchor is an editing history, whose effect on stale spill cells is property C31's subject, not C24's
+        let mut used = std::collections::BTreeSet::new();
+        used.insert((1, 1));
         for _ in 0..n {
             let row = 1 + r.below(8) as i32;
-            let kind = r.below(10);
+            let kind = r.below(13);
             // formulas live in columns D..F and refer to A..C, so that (almost) no workbook is circular:
             // the values of cells on a reference cycle depend on the evaluation history, not on the file
             let col = if kind >= 5 { 4 + r.below(3) as i32 } else { 1 + r.below(6) as i32 };
+            if !used.insert((row, col)) {
+                continue;
+            }
             match kind {
                 0 | 1 => {
-                    let v = *r.pick(&["1", "2.5", "-3", "1e10", "0.1", "123456789.123", "50%", "2020-02-29", "TRUE"]);
+                    let v = *r.pick(&["1", "2.5", "-3", "1e10", "0.1", "123456789.123", "50%", "2020-02-29", "TRUE", "FALSE", "#N/A", "#DIV/0!", "#VALUE!"]);
                     let _ = m.set_user_input(sheet, row, col, v.to_string());
                 }
                 2 | 3 => {
@@ -277,9 +315,19 @@ pub fn gen_model(seed: u64, size: u32) -> Model<'static> {
                 4 => {
                     let _ = m.set_user_input(sheet, row, col, format!("'{}", r.below(100)));
                 }
-                5 => {
-                    let f = *r.pick(&["=A1:A2+1", "=SUM(A1:B2)", "={1,2}*2", "=SEQUENCE(2)"]);
-                    let _ = m.set_user_array_formula(sheet, row, col, 1 + r.below(2) as i32, 1 + r.below(2) as i32, f);
+                5 | 6 => {
+                    // fixed-range (CSE) array
+                    let f = if r.chance(1, 4) {
+                        *r.pick(&["=A1:A2+1", "=SUM(A1:B2)", "={1,2}*2", "=SEQUENCE(2)"])
+                    } else {
+                        *r.pick(ARRAY_FORMULAS)
+                    };
+                    let _ = m.set_user_array_formula(sheet, row, col, 1 + r.below(3) as i32, 1 + r.below(3) as i32, f);
+                }
+                7 | 8 | 9 => {
+                    // dynamic (spilling) array
+                    let f = *r.pick(ARRAY_FORMULAS);
+                    let _ = m.set_user_input(sheet, row, col, f.to_string());
                 }
                 _ => {
                     let f = *r.pick(FORMULAS);
@@ -291,6 +339,16 @@ pub fn gen_model(seed: u64, size: u32) -> Model<'static> {
                 let _ = m.set_cell_style(sheet, row, col, &st);
             }
         }
+        // style-only (empty) cells
+        for _ in 0..r.below(3) {
+            let (row, col) = (1 + r.below(8) as i32, 1 + r.below(3) as i32);
+            if used.insert((row, col)) {
+                let st = gen_style(&mut r);
+                let _ = m.set_cell_style(sheet, row, col, &st);
+            }
+        }
+        // the input that sizes the arrays (edited again by `apply_edit` after the round trip)
+        let _ = m.set_user_input(sheet, 1, 1, "3".to_string());
         if r.chance(1, 3) {
             let st = gen_style(&mut r);
             let _ = m.set_column_style(sheet, 1 + r.below(5) as i32, &st);
@@ -450,8 +508,9 @@ pub fn snapshot(m: &Model) -> Vec<String> {
             let text = m.get_formatted_cell_value(sheet, row, col).unwrap_or_else(|e| format!("ERR {e}"));
             let st = m.get_style_for_cell(sheet, row, col).map(|s| style(&s)).unwrap_or_else(|e| format!("ERR {e}"));
             let empty = content.is_empty() && value == "Ok(None)";
-            if !empty {
-                out.push(format!("cell:{i}:{row}:{col}\u{1f}content={content:?}\u{1f}value={value}\u{1f}type={ctype}\u{1f}text={text:?}"));
+            let array = array_structure(m, sheet, row, col);
+            if !empty || array != "single" {
+                out.push(format!("cell:{i}:{row}:{col}\u{1f}content={content:?}\u{1f}value={value}\u{1f}type={ctype}\u{1f}text={text:?}\u{1f}array={array}"));
             }
             if !(empty && st == style(&Style::default())) {
                 out.push(format!("style:{i}:{row}:{col}\u{1f}{st}"));
@@ -504,4 +563,120 @@ fn cf_rule_text(r: &ironcalc_base::cf_types::CfRule) -> String {
     }
     let _ = write!(s, "");
     s
+}
+
+/// The array structure of a cell as `UserModel::get_cell_array_structure` reports it: `single`,
+/// `dynamic-anchor(w,h)`, `cse-anchor(w,h)`, `dynamic-child(r,c,w,h)`, `cse-child(r,c,w,h)`.
+pub fn array_structure(m: &Model, sheet: u32, row: i32, col: i32) -> String {
+    use ironcalc_base::types::{ArrayKind, Cell};
+    let ws = match m.workbook.worksheet(sheet) {
+        Ok(ws) => ws,
+        Err(_) => return "no-sheet".into(),
+    };
+    let kind = |k: &ArrayKind| if matches!(k, ArrayKind::Dynamic) { "dynamic" } else { "cse" };
+    match ws.cell(row, col) {
+        Some(Cell::ArrayFormula { r, kind: k, .. }) => format!("{}-anchor({},{})", kind(k), r.0, r.1),
+        Some(Cell::SpillCell { a, .. }) => match ws.cell(a.0, a.1) {
+            Some(Cell::ArrayFormula { r, kind: k, .. }) => format!("{}-child({},{},{},{})", kind(k), a.0, a.1, r.0, r.1),
+            _ => format!("orphan-child({},{})", a.0, a.1),
+        },
+        _ => "single".into(),
+    }
+}
+
+/// The arm of the exporter's cell writer (`get_worksheet_xml`: `Cell::*` × value variant) every cell takes.
+pub fn writer_arms(m: &Model) -> Vec<String> {
+    use ironcalc_base::types::{ArrayKind, Cell, FormulaValue, SpillValue};
+    let fv = |v: &FormulaValue| match v {
+        FormulaValue::Unevaluated => "Unevaluated",
+        FormulaValue::Boolean(_) => "Boolean",
+        FormulaValue::Number(_) => "Number",
+        FormulaValue::Text(_) => "Text",
+        FormulaValue::Error { .. } => "Error",
+    };
+    let mut out = vec![];
+    for ws in &m.workbook.worksheets {
+        for data in ws.sheet_data.values() {
+            for cell in data.values() {
+                out.push(match cell {
+                    Cell::EmptyCell { .. } => "arm:EmptyCell".to_string(),
+                    Cell::BooleanCell { .. } => "arm:BooleanCell".to_string(),
+                    Cell::NumberCell { .. } => "arm:NumberCell".to_string(),
+                    Cell::ErrorCell { .. } => "arm:ErrorCell".to_string(),
+                    Cell::SharedString { .. } => "arm:SharedString".to_string(),
+                    Cell::CellFormula { v, .. } => format!("arm:CellFormula/{}", fv(v)),
+                    Cell::ArrayFormula { v, kind, .. } => format!(
+                        "arm:ArrayFormula:{}/{}",
+                        if matches!(kind, ArrayKind::Dynamic) { "Dynamic" } else { "Cse" },
+                        fv(v)
+                    ),
+                    Cell::SpillCell { v, .. } => format!(
+                        "arm:SpillCell/{}",
+                        match v {
+                            SpillValue::Boolean(_) => "Boolean",
+                            SpillValue::Number(_) => "Number",
+                            SpillValue::Text(_) => "Text",
+                            SpillValue::Error(_) => "Error",
+                        }
+                    ),
+                });
+            }
+        }
+    }
+    out
+}
+
+/// every arm of the cell writer that an evaluated workbook can reach
+pub const ALL_ARMS: &[&str] = &[
+    "arm:EmptyCell", "arm:BooleanCell", "arm:NumberCell", "arm:ErrorCell", "arm:SharedString",
+    "arm:CellFormula/Boolean", "arm:CellFormula/Number", "arm:CellFormula/Text", "arm:CellFormula/Error",
+    "arm:ArrayFormula:Dynamic/Boolean", "arm:ArrayFormula:Dynamic/Number", "arm:ArrayFormula:Dynamic/Text",
+    "arm:ArrayFormula:Dynamic/Error", "arm:ArrayFormula:Cse/Boolean", "arm:ArrayFormula:Cse/Number",
+    "arm:ArrayFormula:Cse/Text", "arm:ArrayFormula:Cse/Error",
+    "arm:SpillCell/Boolean", "arm:SpillCell/Number", "arm:SpillCell/Text", "arm:SpillCell/Error",
+];
+
+/// The same small edit applied to the original and to the re-imported workbook: the input that sizes the arrays
+/// grows (every `SEQUENCE(A1…)` array changes shape) and two inputs the arrays read change kind.
+pub fn apply_edit(m: &mut Model) {
+    let n = m.workbook.worksheets.len() as u32;
+    for sheet in 0..n {
+        let _ = m.set_user_input(sheet, 1, 1, "4".to_string());
+        let _ = m.set_user_input(sheet, 2, 2, "TRUE".to_string());
+        let _ = m.set_user_input(sheet, 3, 2, "=1/0".to_string());
+    }
+    m.evaluate();
+}
+
+/// A fixed workbook in which every arm of the exporter's cell writer occurs (dynamic and CSE arrays whose anchor
+/// is a boolean, a number, a text and an error, with spill cells of every kind; formula cells of every value kind;
+/// every literal cell kind; a style-only cell).
+pub fn gen_arms_model() -> Model<'static> {
+    let mut m = Model::new_empty("book", "en", "UTC", "en").expect("new_empty");
+    let _ = m.set_user_input(0, 1, 1, "3".to_string());
+    let _ = m.set_user_input(0, 2, 1, "TRUE".to_string());
+    let _ = m.set_user_input(0, 3, 1, "#N/A".to_string());
+    let _ = m.update_cell_with_text(0, 4, 1, "text");
+    let _ = m.set_cell_style(0, 5, 1, &gen_style(&mut Rng::new(3)));
+    for (i, f) in ["=A1>1", "=A1*2", "=A1&\"x\"", "=1/0"].iter().enumerate() {
+        let _ = m.set_user_input(0, 1 + i as i32, 2, f.to_string());
+    }
+    // dynamic arrays in row 1 of every second column from D on, each spilling down/right
+    let dynamic = [
+        "=SEQUENCE(A1)>1",
+        "=SEQUENCE(A1)*2",
+        "=SEQUENCE(A1)&\"x\"",
+        "=1/(SEQUENCE(A1)-1)",
+        "=IF(SEQUENCE(A1)>1,NA(),TRUE)",
+        "={1,\"t\";TRUE,2}",
+    ];
+    for (i, f) in dynamic.iter().enumerate() {
+        let _ = m.set_user_input(0, 1, 4 + 3 * i as i32, f.to_string());
+    }
+    // the same as fixed-range arrays from row 10 on
+    for (i, f) in dynamic.iter().enumerate() {
+        let _ = m.set_user_array_formula(0, 10, 4 + 3 * i as i32, 2, 3, f);
+    }
+    m.evaluate();
+    m
 }
